@@ -78,10 +78,11 @@ class Keccak(object):
             assert self.r
             r = self.r
         else:
-            self.setrate(r)
+            # a rate given to this call applies to this call only:
+            assert r<=1536
 
         #Absorbing phase
-        for Pi in self.iterblocks(M,bitlen):
+        for Pi in self.iterblocks(M,bitlen,r):
             Ps = State(self.w).load(Pi)
             S = self.f(S^Ps)
 
@@ -92,7 +93,7 @@ class Keccak(object):
             Z = Z//S.dump(r)
         return pack(Z[:self.outlen])
 
-    def iterblocks(self,M,bitlen=None):
+    def iterblocks(self,M,bitlen=None,r=None):
         needed = len(M)*8
         # handle NIST MSB alignment to Keccak LSB alignment for last byte
         # (see Keccak SHA-3 submission §6.1):
@@ -102,7 +103,7 @@ class Keccak(object):
             if not self.duplexing:
                 b = Bits(M[needed//8:needed//8+1],size=needed%8)[::-1]
                 M = M[:needed//8]+bytes([b.ival])
-        r = self.r
+        if r is None: r = self.r
         br = (r//8) or 1 # bytes per read (rates below 8 still read one byte)
         P = BytesIO(M)
         # init iterator loop:
